@@ -809,7 +809,7 @@ impl Prop for C02 {
                 v.push(json!({"kind": "codec_sweep", "stream": st, "pairs": true, "from": a, "to": a + step}));
                 a += step;
             }
-            for b in 0..tier.pick(1u64, 10) {
+            for b in 0..tier.pick(1u64, 60) {
                 v.push(json!({"kind": "codec_strides", "stream": st, "seed": seed ^ (b << 32),
                               "randoms": tier.pick(200, 500)}));
             }
